@@ -1043,9 +1043,10 @@ fn random_script(rng: &mut Rng) -> Vec<Item> {
             let lo = b'A' + rng.below(26) as u8;
             let hi = lo + rng.below((b'Z' - lo + 1) as u64) as u8;
             let (lo, hi) = if rng.chance(1, 2) { (b'A', b'A' + rng.below(12) as u8) } else { (lo, hi) };
-            let (lo, hi) = match rng.below(3) {
+            let (lo, hi) = match rng.below(4) {
                 0 => (lo.to_ascii_lowercase(), hi.to_ascii_lowercase()),
                 1 => (lo, hi.to_ascii_lowercase()),
+                2 => (lo.to_ascii_lowercase(), hi),
                 _ => (lo, hi),
             };
             s.push(Item::Def(*rng.pick(&ALLQ), vec![(lo, hi)]));
@@ -1254,7 +1255,9 @@ fn property_oracles(rep: &mut Report) {
 // ------------------------------------------------------------------------------------------------
 
 fn main() {
-    std::panic::set_hook(Box::new(|_| {}));
+    if std::env::var("VERIF_DEBUG").is_err() {
+        std::panic::set_hook(Box::new(|_| {}));
+    }
     let mut rng = Rng::from_env();
     let mut rep = Report::new(
         "C13",
@@ -1332,12 +1335,19 @@ fn main() {
         let mut seqs: Vec<Vec<(Q, Vec<(u8, u8)>)>> = vec![];
         for q in ALLQ {
             for l in b'A'..=b'Z' {
-                seqs.push(vec![(q, vec![(l, if l % 2 == 0 { l } else { l.to_ascii_lowercase() })])]);
+                let lc = l.to_ascii_lowercase();
+                seqs.push(vec![(q, vec![match l % 4 { 0 => (l, l), 1 => (l, lc), 2 => (lc, l), _ => (lc, lc) }])]);
             }
         }
         for lo in b'A'..=b'Z' {
             for hi in lo..=b'Z' {
-                seqs.push(vec![(ALLQ[((lo + hi) % 5) as usize], vec![(lo, hi.to_ascii_lowercase())])]);
+                let r = match (lo as usize + 2 * hi as usize) % 4 {
+                    0 => (lo, hi),
+                    1 => (lo, hi.to_ascii_lowercase()),
+                    2 => (lo.to_ascii_lowercase(), hi),
+                    _ => (lo.to_ascii_lowercase(), hi.to_ascii_lowercase()),
+                };
+                seqs.push(vec![(ALLQ[((lo + hi) % 5) as usize], vec![r])]);
             }
         }
         let n_rand = if thorough { 3000 } else { 150 };
@@ -1350,9 +1360,10 @@ fn main() {
                 for _ in 0..nr {
                     let lo = b'A' + rng.below(26) as u8;
                     let hi = lo + rng.below((b'Z' - lo + 1) as u64) as u8;
-                    let (lo, hi) = match rng.below(3) {
+                    let (lo, hi) = match rng.below(4) {
                         0 => (lo.to_ascii_lowercase(), hi.to_ascii_lowercase()),
                         1 => (lo, hi.to_ascii_lowercase()),
+                        2 => (lo.to_ascii_lowercase(), hi),
                         _ => (lo, hi),
                     };
                     rs.push((lo, hi));
@@ -1432,6 +1443,65 @@ fn main() {
         rep.sample(J::s(format!("{} -> {}", reqs[3], answers[3])));
     }
 
+    {
+        // which letter ranges the parser accepts: model `rangeAccepted` vs the real parser, all case combinations
+        let letters: Vec<u8> = if thorough {
+            (b'A'..=b'Z').chain(b'a'..=b'z').collect()
+        } else {
+            vec![b'A', b'a', b'B', b'b', b'M', b'm', b'Y', b'y', b'Z', b'z']
+        };
+        let mut pairs: Vec<(u8, u8)> = vec![];
+        for &a in &letters {
+            for &b in &letters {
+                pairs.push((a, b));
+            }
+        }
+        if !thorough {
+            for _ in 0..150 {
+                let a = b'A' + rng.below(26) as u8 + if rng.chance(1, 2) { 32 } else { 0 };
+                let b = b'A' + rng.below(26) as u8 + if rng.chance(1, 2) { 32 } else { 0 };
+                pairs.push((a, b));
+            }
+        }
+        let reqs: Vec<String> = pairs.iter().map(|(a, b)| format!("(names.rangeok {} {})", a, b)).collect();
+        let answers = ask(&reqs);
+        for (i, (a, b)) in pairs.iter().enumerate() {
+            rep.case(Some(format!("range:{}-{}", *a as char, *b as char)));
+            rep.bump("deftype.range-acceptance");
+            let text = format!("DEFINT {}-{}\n", *a as char, *b as char);
+            let real = match asm.piece(&text) {
+                Ok(_) => "t".to_owned(),
+                Err(e) if e.contains("Invalid letter range") => "f".to_owned(),
+                Err(e) => e,
+            };
+            let spec = if a.to_ascii_uppercase() <= b.to_ascii_uppercase() { "t" } else { "f" };
+            if real != spec {
+                rep.fail(Failure {
+                    kind: Kind::ImplVsProperty,
+                    signature: "deftype-range:letter-case".into(),
+                    input: text.clone(),
+                    implementation: real.clone(),
+                    expected: spec.into(),
+                    note: "a DEFtype range a-b is accepted iff a <= b as letters, whatever their case".into(),
+                });
+            }
+            if real != answers[i] {
+                rep.fail(Failure {
+                    kind: Kind::ModelVsImpl,
+                    signature: "model:rangeAccepted".into(),
+                    input: reqs[i].clone(),
+                    implementation: real,
+                    expected: answers[i].clone(),
+                    note: "RbModel.Names.rangeAccepted vs the parser".into(),
+                });
+            }
+        }
+        rep.exhaustive_parts.push(format!(
+            "DEFtype range acceptance: all {} ordered pairs over {} letters (both cases)",
+            letters.len() * letters.len(),
+            letters.len()
+        ));
+    }
     lap("deftype done", &asm);
     // ---- 2. case-insensitive equality ----------------------------------------------------------
     {
